@@ -50,7 +50,7 @@ MonInit ==
     slow |-> {},         \* clients that stopped reading at some point: "by the end of the iteration" means nothing for them
     slowenv |-> FALSE,   \* a scenario with a real (wall-clock) request timeout ran on a machine too slow for its timing to mean anything
     topoSeen |-> FALSE,  \* the scenario changes the cluster's description (the slot table is then not the static one)
-    await |-> {},        \* fragments whose redirect to a node the proxy knows has been read by the proxy and that have not arrived there yet
+    nres |-> <<>>,       \* fragment -> how often it has arrived at a node again (re-sent after a redirect)
     npaused |-> {},      \* nodes that are not reading at the moment
     envbad |-> FALSE,    \* the machine, not the proxy, disturbed the scenario (a connect timed out, bytes took seconds to arrive): its outcome says nothing about segmentation
     role |-> "", base |-> [nlog |-> <<>>, got |-> <<>>, cst |-> <<>>], baseok |-> TRUE ]   \* C08: outcome of the unsegmented twin
@@ -194,7 +194,11 @@ Resolved(m, f, final) ==
   \/ final /\ (f \in m.lost \/ f \in m.expired \/ f \notin m.recvd)
   \* the proxy has read a redirect to a node it knows, everything is quiet, and the request has not arrived at that
   \* node (which is reading): it has not been re-sent and never will be
-  \/ final /\ f \in m.await /\ At(m.redir, f, <<>>) # <<>> /\ m.redir[f][Len(m.redir[f])].to \notin m.npaused
+  \/ final /\ At(m.redir, f, <<>>) # <<>>
+           /\ LET to == m.redir[f][Len(m.redir[f])].to IN
+              /\ to \in NodeNames /\ to \notin m.npaused
+              /\ \A cn \in DOMAIN m.unreadRedir : f \notin m.unreadRedir[cn]
+              /\ Len(m.redir[f]) > At(m.nres, f, 0)
 
 ReqResolved(m, c, i, final) ==
   LET r == Sent(m, c)[i] IN
@@ -306,7 +310,7 @@ MonApply(m, e) ==
                                  [conn |-> e.conn, k |-> e.k, c |-> e.c, i |-> e.i, s |-> f[3], resend |-> f \in m.recvd])),
                    !.pend = Put(@, e.conn, Append(At(m.pend, e.conn, <<>>), f)),
                    !.recvd = @ \cup {f},
-                   !.await = @ \ {f},
+                   !.nres = IF f \in m.recvd THEN Put(@, f, At(m.nres, f, 0) + 1) ELSE @,
                    !.viol = @ \cup RecvViol(m, e, f)]
     [] e.ev = "answer" /\ e.fid # "" ->
          LET f == <<e.c, e.i, e.toks[1].s>>
@@ -365,7 +369,6 @@ MonApply(m, e) ==
              \* re-sent, it gets a new deadline: an expiry of the old one that no scan has seen is void
              rearmed == UNION {At(m.unreadRedir, cn, {}) : cn \in conns} \ m.tmo
              m1 == [m EXCEPT !.rd = @ \cup newrd,
-                             !.await = @ \cup {f \in UNION {At(m.unreadRedir, cn, {}) : cn \in conns} : ~RedirToUnknown(m, f)},
                              !.noticed = @ \cup newnt,
                              !.expired = @ \ rearmed,
                              !.tmo = IF e.seen # <<>> THEN @ \cup (m.expired \ rearmed) ELSE @,
